@@ -81,6 +81,25 @@ def observable(kind, cfg, comm):
         d["avg"] = _fb(e.samples.average())
         e2 = e.at(e.position + ift.full(e.position.domain, 0.01))
         d["value2"] = np.float64(e2.value).tobytes().hex()
+        # persisted form: every task writes its own files; what is on disk must be the single-process file set
+        import os, shutil, tempfile, hashlib
+        if comm is None:
+            base_dir = tempfile.mkdtemp(prefix="c22_save_")
+        else:
+            base_dir = comm.bcast(tempfile.mkdtemp(prefix="c22_save_") if comm.Get_rank() == 0 else None, root=0)
+        try:
+            e.samples.save(os.path.join(base_dir, "sl"), overwrite=True)
+            if comm is not None:
+                comm.Barrier()
+            files = sorted(os.listdir(base_dir))
+            d["saved_files"] = files
+            back = ift.ResidualSampleList.load(os.path.join(base_dir, "sl"), comm=comm)
+            d["reloaded"] = [_fb(s) for s in back.iterator()]
+            if comm is not None:
+                comm.Barrier()
+        finally:
+            if comm is None or comm.Get_rank() == 0:
+                shutil.rmtree(base_dir, ignore_errors=True)
         return d
     if kind == "okl":
         models_cl.reset_random() if comm is None else None
